@@ -306,4 +306,40 @@ Proof.
   rewrite Forall_forall in F. exact (F e Hin).
 Qed.
 
+(* ---- the client address ---------------------------------------------------------------- *)
+
+Lemma client_ip_believed t trusted w : proxies_ok t = true -> client_ip t trusted w = believed trusted w.
+Proof. unfold proxies_ok, client_ip, believed. intros ->. reflexivity. Qed.
+
+(* data only for a client admitted at the address the server is entitled to believe *)
+Theorem guarded_wire t : tbl_ok t = true -> proxies_ok t = true -> forall trusted w q,
+  carries_data (serve_wire auth valid_path t trusted w q) = true ->
+  auth (t_action t) (if t_withpath t then Some (q_path q) else None) (q_creds q) (believed trusted w) = true.
+Proof.
+  intros Hok Hp trusted w q Hd. unfold serve_wire in Hd.
+  apply (guarded t Hok) in Hd. unfold admitted in Hd. cbn in Hd.
+  rewrite (client_ip_believed t trusted w Hp) in Hd. exact Hd.
+Qed.
+
+Theorem refused_exact_wire t : tbl_strict t = true -> proxies_ok t = true -> forall trusted w q,
+  auth (t_action t) (if t_withpath t then Some (q_path q) else None) (q_creds q) (believed trusted w) = false ->
+  carries_data (serve_wire auth valid_path t trusted w q) = false /\
+  status (serve_wire auth valid_path t trusted w q) = denied_status t q.
+Proof.
+  intros Hs Hp trusted w q Ha. unfold serve_wire.
+  assert (Hadm : admitted auth t (on_wire t trusted w q) = false).
+  { unfold admitted. cbn. rewrite (client_ip_believed t trusted w Hp). exact Ha. }
+  destruct (refused_exact t Hs _ Hadm) as [H1 H2]. split; [exact H1|]. rewrite H2. reflexivity.
+Qed.
+
+(* a peer that is not a configured trusted proxy cannot influence the answer through the forwarding headers *)
+Theorem forwarded_ignored_when_untrusted t : proxies_ok t = true -> forall trusted peer f1 f2 q,
+  trusted peer = false ->
+  serve_wire auth valid_path t trusted {| w_peer := peer; w_forwarded := f1 |} q =
+  serve_wire auth valid_path t trusted {| w_peer := peer; w_forwarded := f2 |} q.
+Proof.
+  intros Hp trusted peer f1 f2 q Hu. unfold serve_wire. f_equal. unfold on_wire.
+  rewrite !(client_ip_believed t trusted _ Hp). unfold believed. cbn. rewrite Hu. reflexivity.
+Qed.
+
 End WithOracles.
